@@ -180,6 +180,7 @@ pub fn replay(args: &[String]) {
         register_ops_file(&f);
     }
     let recs = read_ndjson(path);
+    let emit_ast = args.iter().any(|a| a == "--emit-ast");
     let mut out = Out::new(None);
     let (mut n, mut bad, mut skipped, mut unspec) = (0u64, 0u64, 0u64, 0u64);
     let mut by_verdict: HashMap<String, u64> = HashMap::new();
@@ -203,6 +204,9 @@ pub fn replay(args: &[String]) {
         n += 1;
         let abs = if ok { map_leaves(&ast, &|k, t| case.back.get(&(k.to_string(), t.to_string())).cloned().unwrap_or_else(|| format!("?{}", t))) } else { J::Null };
         // the specification's own machine must agree with the real parser wherever the verdict pins the outcome
+        if emit_ast {
+            out.line(&json!({"parsed": idx, "ok": ok, "panic": panicked, "ast": abs, "text": case.text}));
+        }
         let good = !panicked && conforms(v, &r["ast"], ok, &abs);
         if good && !ok && r["ast"][0] == "error" {
             if let (Some(spec), Some(got)) = (r["ast"][1].as_str(), parse_error_variant(&case.text)) {
